@@ -586,6 +586,24 @@ class Interp:
         elif isinstance(src, int) and _array_len(dst_t) is not None and si is not None:
             n = si[0] // 8
             u[fld] = list((src & ((1 << si[0]) - 1)).to_bytes(n, 'big' if big else 'little')) + [0] * max(0, _array_len(dst_t) - n)
+        elif isinstance(src, int) and si is not None and di is not None and di[0] <= si[0] and not big:
+            # integer members of a little-endian union share their low-order bytes
+            v = src & ((1 << di[0]) - 1)
+            if di[1] and v >> (di[0] - 1):
+                v -= 1 << di[0]
+            u[fld] = v
+        elif isinstance(src, int) and si is not None and self.tu_desugar(dst_t) in ('float', 'double') and \
+                si[0] == (32 if self.tu_desugar(dst_t) == 'float' else 64):
+            import struct
+            raw = (src & ((1 << si[0]) - 1)).to_bytes(si[0] // 8, 'little')
+            u[fld] = struct.unpack('<f' if si[0] == 32 else '<d', raw)[0]
+        elif isinstance(src, float) and di is not None and self.tu_desugar(src_t) in ('float', 'double') and \
+                di[0] == (32 if self.tu_desugar(src_t) == 'float' else 64):
+            import struct
+            v = int.from_bytes(struct.pack('<f' if di[0] == 32 else '<d', src), 'little')
+            if di[1] and v >> (di[0] - 1):
+                v -= 1 << di[0]
+            u[fld] = v
         else:
             u.pop(fld, None)
 
